@@ -151,6 +151,20 @@ def register_width_calls(g):
     o2 = [reg(w3, l3), "%r11b"] if second_first else ["%r11b", reg(w3, l3)]
     insts = [("1000", m1, [reg("64", l1)]), ("1002", m2, o2), ("1006", "ret", [])]
     exp = (l3 == l1 and w3 == w2)
+    if g.chance(0.2):
+        # the FIRST occurrence meets a register of ANOTHER family (and the later one follows it consistently): a family
+        # name never denotes a register outside its family
+        ofam = g.pick([f for f in REGS if f != fam])
+        ot = REGS[ofam]
+        ol = g.pick(ot["letters"])
+        w = w2 if w2 in ot else "64"
+
+        def oreg(width):
+            f = ot[width]
+            return "%" + (f % ol if "%s" in f else f)
+        o2 = [oreg(w), "%r11b"] if second_first else ["%r11b", oreg(w)]
+        insts = [("1000", m1, [oreg("64")]), ("1002", m2, o2), ("1006", "ret", [])]
+        return doc, insts, False, "register-width-first-occurrence-on-other-family"
     return doc, insts, exp, "register-width-%s-%s" % (w2, "same" if exp else "other-register" if l3 != l1 else "other-width-" + w3)
 
 
